@@ -1,23 +1,12 @@
 import NimaVerif.Lemmas.NodeUpd
+import NimaVerif.Model.LayerSpec
 import NimaVerif.Lemmas.NodeEq
 /-! Helper lemmas for C14: alignment of `attrpath_order` with `values` under the mapping operations. -/
 namespace Nima
 
 open Node EditM
 
-/-! ### the functions the mapping operations apply to a set object -/
-
-def appendValueFn (b : Node) : Node → Node
-  | .set s vs o m r => .set s (vs ++ [b]) o m r
-  | n => n
-def appendOrderFn (x : Node) : Node → Node
-  | .set s vs o m r => if o.isEmpty then .set s vs o m r else .set s vs (o ++ [x]) m r
-  | n => n
-def delItemFn (bid : Nat) : Node → Node
-  | .set s' vs o m r =>
-      .set s' (vs.eraseP fun n => n.bindId? == some bid)
-        (if o.isEmpty then o else o.eraseP fun n => n.isBind && n.bindId? == some bid) m r
-  | n => n
+/-! ### the functions the mapping operations apply to a set object (`Model/LayerSpec.lean`) -/
 
 theorem appendValue_eq (sid : Nat) (b : Node) :
     appendValue sid b = EditM.modify fun d => d.updSet sid (appendValueFn b) := by
